@@ -599,6 +599,16 @@ func (e *Env) call(x *ECall) Val {
 		k := e.eval(x.Args[1])
 		d := e.eval(x.Args[2])
 		return scalar(d.T, e.x.jsonObjVal(b, c.sortOf(k.T), e.x.jsonValSort(d), k.S))
+	case "fst", "snd":
+		argn(1)
+		v := e.eval(x.Args[0])
+		if v.K != KTuple || len(v.Fs) < 2 {
+			efail("%s needs a pair", x.Fn)
+		}
+		if x.Fn == "fst" {
+			return v.Fs[0]
+		}
+		return v.Fs[1]
 	case "logfun":
 		// logfun(n): the function value applied by the n-th callback application
 		argn(1)
